@@ -416,13 +416,18 @@ func runStress(tw *tracefmt.Writer, st *stats, rng *rand.Rand, runs int) {
 		tw.Emit(tracefmt.Rec{"ev": "reset", "cap": 1024, "n": i, "mode": "stress", "outbound": outbound})
 		r := newRig(tw, writers)
 		var wg sync.WaitGroup
-		for _, w := range writers {
+		for wi, w := range writers {
 			w := w
+			// Only two writers send play-only packets, at most 6 each: the order in which
+			// concurrently held packets were accepted is invisible until the next leave, so
+			// the acceptor has to try every merge of them (2 x 6 -> at most 924 candidates).
 			kinds := make([]string, per)
+			nP := 0
 			for k := range kinds {
-				kinds[k] = "P"
-				if rng.Intn(4) == 0 {
-					kinds[k] = "K"
+				kinds[k] = "K"
+				if wi < 2 && nP < 6 && rng.Intn(2) == 0 {
+					kinds[k] = "P"
+					nP++
 				}
 			}
 			yield := rng.Intn(3)
